@@ -63,7 +63,7 @@ def run(tier):
     ctx = Ctx('K1')
     cr = ctx.crate
     # ------------------------------------------------------------------ Yuv::new
-    combos = [('u8', 8), ('u16', 10), ('u16', 16)] if tier == 'quick' else [('u8', 8)] + [('u16', b) for b in range(8, 17)]
+    combos = [('u8', 8)] + [('u16', b) for b in range(8, 17)]          # every depth in both tiers (the depth is a concrete configuration value; ~0.2 s each)
     W = np.arange(1, 13, dtype=np.int64)
     for T, bd in combos:
         base = f"C12/Yuv::new/{T}/{bd}"
